@@ -639,7 +639,8 @@ impl Apply for ChainedContextLookup<'_> {
                     None,
                 );
 
-                if input_matches {
+                // On an input mismatch `match_end` is the position up to which glyphs were inspected.
+                if input_matches || match_end > end_index {
                     end_index = match_end;
                 }
 
@@ -821,7 +822,8 @@ fn apply_chain_context(
         None,
     );
 
-    if input_matches {
+    // On an input mismatch `match_end` is the position up to which glyphs were inspected.
+    if input_matches || match_end > end_index {
         end_index = match_end;
     }
 
